@@ -380,6 +380,26 @@ func (t *Tree) AddDoubleCharacter(text string) {
 	t.AddAlternate()
 }
 
+// AddCaseFold makes the character that was added last match in either case,
+// however it was written (raw or as an escape): a character that has an upper
+// and a lower case becomes the choice AddDoubleCharacter builds, a character
+// without case stays as it is.
+func (t *Tree) AddCaseFold() {
+	c := t.PopFront()
+	text := c.String()
+	lower, upper := strings.ToLower(text), strings.ToUpper(text)
+	if lower == upper {
+		t.PushFront(c)
+		return
+	}
+	t.AddDoubleCharacter(text)
+	if text != lower && text != upper {
+		// a title case letter (U+01C5 ...) is neither: it matches itself as well
+		t.PushFront(c)
+		t.AddAlternate()
+	}
+}
+
 func (t *Tree) AddHexaCharacter(text string) {
 	hexa, err := strconv.ParseInt(text, 16, 32)
 	if err != nil || !utf8.ValidRune(rune(hexa)) {
